@@ -77,6 +77,11 @@ T["C14"] = ("finite-difference oracle on the real loss-through-hedger scalar (un
             "differences of the same scalar on the same paths, over smooth models (incl. output activations that save their output), feature sets with/without prev_hedge, "
             "costs, hedge lists, all criteria (incl. quadratic CVaR in the concentrated-P&L regime), both branches and train/eval mode; price() and compute_loss(enable_grad=False) "
             "must carry no graph.", "4 C14")
+T["C15"] = ("trace monitor (optimizer step hooks, zero_grad wrapper, simulate tap, criterion hooks, parameter version counters) checked by an automaton + reference training loop",
+            "Every fit() call in a sweep over epochs (incl. 0), batch sizes, n_times, validation on/off, optimiser classes and instances, lazy / materialised / dropout models, "
+            "hedge lists, initial states and stale gradients yields an event trace that must be accepted by the protocol automaton (train mode, zero_grad, simulate(n, s), "
+            "criterion under grad, backward, exactly one step changing parameters, n_times validation passes without grad in eval mode), and the parameters and history must be "
+            "bit-identical to an explicit public-API loop under the same seed.", "4 C15 / appendix C")
 NA = {}
 
 def main():
